@@ -33,7 +33,7 @@ def check(case):
     if got != r16.to_bytes(2, 'big'):
         return Fail('crc16/mismatch', f'crc16({data.hex()[:80]})={got!r} expected {r16:04x}')
     r32 = refcrc.crc32c(data)
-    for order in ('little', 'big'):
+    for order in ('little', 'big', ''.join(['lit', 'tle'][::1]).lower().strip(), 'BIG'.lower()):
         got = crc32c(data, order)
         if got != r32.to_bytes(4, order):
             return Fail(f'crc32c/mismatch-{order}', f'crc32c({data.hex()[:80]},{order})={got!r} expected {r32:08x}')
@@ -41,6 +41,7 @@ def check(case):
         return Fail('crc32c/default-byteorder', 'default byte order is not little-endian')
     # the same input again with the byte order given by keyword, in both call orders (a result must not depend on earlier calls)
     for order in ('big', 'little', 'big'):
+        order = ''.join(list(order))            # an equal string that is not the interned literal (as read from a file or a config)
         got = crc32c(data, byteorder=order)
         if got != r32.to_bytes(4, order):
             return Fail(f'crc32c/depends-on-earlier-calls/keyword-{order}', f'crc32c({data.hex()[:40]}, byteorder={order!r})={got!r} '
@@ -86,6 +87,28 @@ def check_long(case):
             out += hashlib.sha256(b'c18/%d/%d' % (case['seed'], c)).digest()
             c += 1
         data = bytes(out[:n])
+    if 'zero_at' in case:
+        # the running register of each checksum is forced to ZERO exactly at offset zero_at (a place where an implementation
+        # that works block by block hands the register from one block to the next): for the reflected CRC-32C, appending the
+        # register's own 4 bytes (little-endian) clears it; for CRC-16/XMODEM (initial value 0) appending the 2 big-endian
+        # bytes of the checksum so far does. One input serves both: [P | crc16 fix] for crc16 is checked on data16.
+        z = case['zero_at']
+        p32 = data[:z - 4]
+        raw = refcrc.crc32c_fast(p32) ^ 0xffffffff
+        data32 = p32 + raw.to_bytes(4, 'little') + data[z:]
+        if refcrc.crc32c_fast(data32[:z]) ^ 0xffffffff != 0:
+            raise AssertionError('register not cleared (harness)')
+        p16 = data[:z - 2]
+        data16 = p16 + refcrc.crc16_xmodem_fast(p16).to_bytes(2, 'big') + data[z:]
+        if refcrc.crc16_xmodem_fast(data16[:z]) != 0:
+            raise AssertionError('crc16 register not cleared (harness)')
+        if crc16(data16) != refcrc.crc16_xmodem_fast(data16).to_bytes(2, 'big'):
+            return Fail('crc16/mismatch/register-zero-inside-the-input', f'{n} bytes, register 0 at offset {z}')
+        r32 = refcrc.crc32c_fast(data32)
+        for order in ('little', 'big'):
+            if crc32c(data32, order) != r32.to_bytes(4, order):
+                return Fail(f'crc32c/mismatch-{order}/register-zero-inside-the-input', f'{n} bytes, register 0 at offset {z}')
+        return None
     forms = [('bytes', data)]
     if case.get('as') == 'bytearray':
         forms.append(('bytearray', bytearray(data)))
@@ -106,6 +129,11 @@ def enum_long(tier):
     for i, n in enumerate(sizes):
         yield {'n': n, 'seed': i, 'as': 'bytearray' if i % 3 == 0 else 'bytes'}
         yield {'n': n, 'fill': (0x00, 0xFF, 0xA5)[i % 3]}
+    # register forced to zero at every power-of-two offset 8 .. 2^17 (thorough 2^20) and a few multiples, with short and long tails
+    offs = [1 << k for k in range(3, 18 if tier == 'quick' else 21)] + [3 * 4096, 2 * 65536 if tier != 'quick' else 3 * 1024, 5 * 512, 1000, 65535]
+    for j, z in enumerate(offs):
+        for tail in (1, 9, 4097):
+            yield {'n': z + tail, 'seed': 1000 + j, 'zero_at': z}
 
 
 def enum_short(tier):
@@ -147,7 +175,7 @@ SUBCHECKS = [
         shards=(16, 16), exhaustive=True),
     Sub('structured', check, enum=enum_structured, classify=classify, nontrivial=lambda c: len(c['data']) >= 2,
         shards=(4, 4)),
-    Sub('long-inputs', check_long, enum=enum_long, shards=(13, 16), classify=lambda c: ['len=%d' % c['n']],
+    Sub('long-inputs', check_long, enum=enum_long, shards=(13, 16), classify=lambda c: ['len=%d' % c['n']] if 'zero_at' not in c else ['register-zero-at=%d' % c['zero_at']],
         note='4095..65537 bytes (thorough: up to 1 MiB + 1) around block-size boundaries; bytes and bytearray'),
     Sub('random', check, strategy=strat, classify=classify, nontrivial=lambda c: len(c['data']) >= 2,
         n=(3000, 200000), shards=(8, 32)),
